@@ -144,6 +144,136 @@ def _swarm_weight_paths(ctx):
                                  "final swarm weights of the single-pass sampler are not the %s of the particles' incremental weights (max log difference %.3g)" % ("product along the ancestry" if thr == 0.0 else "last incremental weight", float(np.max(np.abs(d1)))),
                                  dict(replay, swarm_log_weights=[float(x) for x in logw], expected=[float(x) for x in ex]))
     ctx.extra["swarm_weight_paths"] = n_paths
+    # extreme data (very deep sequencing / hundreds of mutations per cluster): placements differing by thousands of nats.  The
+    # retained path may run through the worst placement; every proposal probability, incremental weight and final weight
+    # must stay finite and the weights normalised (only log-space arithmetic survives this regime).
+    from phyclone.data.base import DataPoint
+    from phyclone.smc.samplers import ConditionalSMCSampler
+    from ..trees import all_specs, build_tree
+
+    for kind in KINDS:
+        for (dop, pop) in ((0.0, 0.0), (0.2, 0.1)):
+            G = 4
+            peaks = [0, 3, 1]
+            hdata = []
+            for i, pk in enumerate(peaks):
+                v = np.array([[-1500.0 * abs(x - pk) - 3.0 * i for x in range(G)]])
+                op_, opn_ = (math.log(dop), math.log1p(-dop)) if dop > 0 else (0, 0.0)
+                hdata.append(DataPoint(i, v, outlier_prob=op_, outlier_prob_not=opn_))
+            specs = all_specs(range(3), outliers=dop > 0)
+            ctx.rng.shuffle(specs)
+            for spec in specs[:6]:
+                seed = ctx.rng.randrange(10**9)
+                rng = np.random.default_rng(seed)
+                clear_proposal_dist_caches()
+                td = make_tree_dist(1.0)
+                kern = make_kernel(kind, td, rng, pop, True)
+                tree = build_tree(spec, hdata)
+                sigma = RootPermutationDistribution.sample(tree, rng)
+                tag = "%s:outliers=%s" % (kind, "on" if dop > 0 else "off")
+                replay = {"kernel": kind, "outlier_prob": dop, "outlier_proposal_prob": pop, "tree": spec, "seed": seed, "log_grids": [d.value.tolist() for d in hdata]}
+                ctx.case(key=("extreme-data", kind, dop, spec), nontrivial=True)
+                ctx.count("extreme_data_runs")
+                try:
+                    with np.errstate(all="ignore"):
+                        smp = ConditionalSMCSampler(tree, sigma, kern, num_particles=4, resample_threshold=0.5)
+                        path_w = [float(pt.log_w) for pt in smp.constrained_path[1:]]
+                        swarm = smp.sample()
+                        w = np.asarray(swarm.weights, dtype=float)
+                        lw = np.asarray(swarm.unnormalized_log_weights, dtype=float)
+                except Exception as e:  # noqa: BLE001
+                    ctx.fail("C08:extreme-data:%s:exception" % tag, "conditional SMC on data with placements thousands of nats apart raised %s: %s" % (type(e).__name__, str(e)[:160]), replay)
+                    continue
+                if not all(math.isfinite(x) for x in path_w):
+                    ctx.fail("C08:extreme-data:%s:retained-weight" % tag, "an incremental weight on the retained path is not finite (%r): the proposal probability of a placement thousands of nats below the best one must still be its true (tiny) value" % (path_w,), dict(replay, retained_log_w=path_w))
+                elif not (np.all(np.isfinite(w)) and abs(float(w.sum()) - 1.0) < 1e-9 and not np.any(np.isnan(lw)) and not np.any(np.isposinf(lw))):
+                    ctx.fail("C08:extreme-data:%s:swarm-weights" % tag, "final swarm weights are not a finite normalised vector (%r)" % (w.tolist(),), dict(replay, log_weights=lw.tolist()))
+
+
+def _run_wiring_probe(ctx):
+    """How `run()` wires the chains: the arguments it hands to the chain runner must be the same whether it runs one chain
+    in-process or several through the pool, and outlier modelling must be ON for the samplers (outlier proposal available,
+    data-point move with the outlier option) whenever the loaded data points carry outlier priors - also when those priors
+    come from --user-provided-loss-prob / --assign-loss-prob rather than from -l."""
+    import concurrent.futures as cf
+    import inspect
+    import os
+
+    import phyclone.run as R
+
+    from .. import runs
+
+    d = runs.tmpdir("C08_wiring_%d" % os.getpid())
+    rows = runs.make_rows(ctx.rng, 8, 2, depth=(20, 40))
+    in_file = runs.write_input(os.path.join(d, "w.tsv"), rows)
+    cl = os.path.join(d, "w_clusters.tsv")
+    with open(cl, "w") as fh:
+        fh.write("mutation_id\tsample_id\tcluster_id\tcellular_prevalence\tchrom\toutlier_prob\n")
+        for m in range(8):
+            for smp in range(2):
+                fh.write("m%d\tS%d\t%d\t%s\tchr%d\t%s\n" % (m, smp, m // 4, "0.9" if m < 4 else "0.3", m + 1 if m < 4 else 7, "0.01" if m < 4 else "0.2"))
+    saved = (R.run_phyclone_chain, R.ProcessPoolExecutor, R.create_main_run_output)
+    sig = inspect.signature(R.run_phyclone_chain)
+    rec = []
+
+    def fake_chain(*a, **k):
+        ba = sig.bind(*a, **k)
+        ba.apply_defaults()
+        rec.append(dict(ba.arguments))
+        return {"chain_num": ba.arguments.get("chain_num", 0), "trace": [], "data": ba.arguments.get("data"), "samples": ba.arguments.get("samples")}
+
+    class InlinePool:
+        def __init__(self, *a, **k):
+            pass
+
+        def __enter__(self):
+            return self
+
+        def __exit__(self, *a):
+            return False
+
+        def submit(self, fn, *a, **k):
+            f = cf.Future()
+            try:
+                f.set_result(fn(*a, **k))
+            except BaseException as e:  # noqa: BLE001
+                f.set_exception(e)
+            return f
+
+    cfgs = [("outlier-prob", dict(outlier_prob=0.001)), ("user-provided-loss-prob", dict(cluster_file=cl, user_provided_loss_prob=True)), ("assign-loss-prob", dict(cluster_file=cl, assign_loss_prob=True)), ("no-outliers", dict())]
+    try:
+        R.run_phyclone_chain, R.ProcessPoolExecutor, R.create_main_run_output = fake_chain, InlinePool, (lambda *a, **k: None)
+        for name, kw in cfgs:
+            calls = {}
+            for chains in (1, 3):
+                del rec[:]
+                try:
+                    with runs.quiet():
+                        R.run(in_file, os.path.join(d, "o.pkl.gz"), burnin=1, num_iters=2, num_particles=3, seed=5, num_chains=chains, print_freq=1000, grid_size=11, density="binomial", **kw)
+                except Exception as e:  # noqa: BLE001
+                    ctx.fail("C08:run-wiring:%s:exception" % name, "run() with %d chain(s) raised %s: %s" % (chains, type(e).__name__, str(e)[:160]), {"config": name, "chains": chains})
+                    continue
+                calls[chains] = [dict(c) for c in rec]
+            ctx.case(key=("run-wiring", name), nontrivial=True, sample={"config": name, "calls": {k_: len(v) for k_, v in calls.items()}})
+            ctx.count("run_wiring_configs")
+            if not calls.get(1) or len(calls.get(3, [])) != 3:
+                ctx.log("run-wiring probe (%s): the chain runner was not reached through phyclone.run.run_phyclone_chain / ProcessPoolExecutor (%s); not applicable" % (name, {k_: len(v) for k_, v in calls.items()}))
+                continue
+            ref = calls[1][0]
+            plain = [k_ for k_, v in ref.items() if isinstance(v, (int, float, str, bool)) and k_ != "chain_num"]
+            for c in calls[3]:
+                diff = {k_: (ref[k_], c.get(k_)) for k_ in plain if c.get(k_) != ref[k_]}
+                if diff:
+                    ctx.fail("C08:run-wiring:%s:single-vs-multi-chain" % name, "run() hands the chain runner different settings with 3 chains than with 1 chain: %r" % (diff,), {"config": name, "differences": {k_: [repr(x) for x in v] for k_, v in diff.items()}})
+                    break
+            for chains, cs in calls.items():
+                for c in cs:
+                    has_prior = any(float(dp.outlier_prob) != 0 for dp in c.get("data") or [])
+                    if has_prior and not (float(c.get("outlier_prob", 0)) > 0):
+                        ctx.fail("C08:run-wiring:%s:outlier-modelling-off-in-samplers" % name, "the loaded data points carry outlier priors but the chain runner (%d chain(s)) is given outlier_prob = %r: its kernels propose no outlier placement and the data-point move has no outlier option" % (chains, c.get("outlier_prob")), {"config": name, "chains": chains})
+                        break
+    finally:
+        R.run_phyclone_chain, R.ProcessPoolExecutor, R.create_main_run_output = saved
 
 
 def to_place(parent_spec, outcome_spec, new_idx):
@@ -275,6 +405,7 @@ def run(ctx):
     # incremental weight alone.  Both are read off the particles' own ancestry and compared with the swarm's weights; the
     # product along the path is also compared with log_p_one + log_pdf - sum log q recomputed from the trees.
     _swarm_weight_paths(ctx)
+    _run_wiring_probe(ctx)
     ok, bad, detail = coq.coq_eval_bool_cases(ctx, "corr", "From PV Require Import Model.ProposalsCases.\nOpen Scope nat_scope.", items, shard=40)
     ctx.extra["coq_corr_cases"] = len(items)
     if not ok:
